@@ -293,13 +293,20 @@ def walkSubs (c : Ctx) (dd : Path) : List (Str × Src) → Except Rej (List Op)
     | _ => walkSubs c dd rest
 end
 
+/-- the top-level `dest_dir` of `_install_from_dirs`: `normpath(pjoin(base_dir, "."))` with
+`base_dir = basename(d.rstrip("/"))` — the last non-empty component of the argument, and nothing at all when that
+component is `.` (`doins -r dir/.`: `normpath` drops it, the contents of `dir` go directly under `--dest`) -/
+def topDir (arg : Str) : Path :=
+  let b := toPath (basename (rstripSlash arg))
+  if b = [['.']] then [] else b
+
 /-- `_install_from_dirs(dirs)` -/
 def fromDirs (c : Ctx) : List Target → Except Rej (List Op)
   | [] => pure []
   | t :: rest =>
     match t.node with
     | .dir kids => do
-      let a ← walkDir c (toPath (basename (rstripSlash t.arg))) kids
+      let a ← walkDir c (topDir t.arg) kids
       let r ← fromDirs c rest
       pure (a ++ r)
     | _ => .error .unmodelled
